@@ -149,22 +149,26 @@ theorem fe_compare (op : CmpOp) (ty : CType) (pa pb : Pol) (a b a' b' : BV4) (w 
 
 /-! ## frontend: static shifts and rotates lowered to a rewire node (`SignalBitshiftOp.cpp`) -/
 
-/-- amount ≤ width: every direction and fill mode is the list-of-bits definition -/
-theorem static_shift_correct (dir : Dir) (fill : Fill) (a : BV4) (amount : Nat) (h : amount ≤ a.length)
-    (hw : a.length < 2 ^ 64) : staticShift dir fill a amount = Spec.shift dir fill a amount :=
-  staticShift_eq_spec dir fill a amount h hw
+/-- **every amount** (also `> width`), every direction, every fill mode (zero, one, last = arithmetic, rotate), every width:
+    the rewire node built for a static shift / rotate is the list-of-bits definition — a shift by `≥ width` is all fill, a
+    rotate is periodic in the width, the result keeps the operand's width (`hw`: widths are `size_t`). -/
+theorem static_shift_correct (dir : Dir) (fill : Fill) (a : BV4) (amount : Nat) (hw : a.length < 2 ^ 64) :
+    staticShift dir fill a amount = Spec.shift dir fill a amount :=
+  staticShift_eq_spec dir fill a amount hw
 
-/-- **defect (DESIGN.md §6 F4), for all widths**: amount > width builds a result of `amount` bits — not the operand's
-    width, so not the definition (`Spec.shift` keeps the width).  Re-discovered by the check as
-    `op=shl|shr|rotl|rotr class=amount-gt-width`. -/
-theorem static_shift_defect (dir : Dir) (fill : Fill) (a : BV4) (amount : Nat) (h : amount > a.length) :
-    (staticShift dir fill a amount).length = amount ∧ (Spec.shift dir fill a amount).length = a.length ∧
-    staticShift dir fill a amount ≠ Spec.shift dir fill a amount := by
-  have h1 := staticShift_length_of_gt dir fill a amount h
-  have h2 : (Spec.shift dir fill a amount).length = a.length := by
-    cases dir <;> cases fill <;> simp [Spec.shift, Spec.shiftLeft, Spec.shiftRight, Spec.rotLeft, Spec.rotRight]
-  refine ⟨h1, h2, fun heq => ?_⟩
-  rw [heq] at h1; omega
+/-- static left shift with zero fill as arithmetic, for every amount: `a · 2^k mod 2^w` -/
+theorem static_shl_toNat (a : BV4) (amount : Nat) (ha : a.allDef = true) (hw : a.length < 2 ^ 64) :
+    (staticShift .left .zero a amount).toNat = (a.toNat * 2 ^ amount) % 2 ^ a.length := by
+  rw [static_shift_correct _ _ _ _ hw]
+  show (Spec.shiftLeft .f a amount).toNat = _
+  rw [shiftLeft_zero_eq_ofNat a _ ha, toNat_ofNat]
+
+/-- historical witness (DESIGN.md §6 F4, repaired by `c4028c8`): without the normalisation of the amount the same rewire
+    construction is `amount` bits wide for `amount > width`, for every width, direction and fill mode.  The check had
+    re-discovered this as `op=shl|shr|rotl|rotr class=amount-gt-width` (findings/F12-C03-*.json). -/
+theorem static_shift_defect_before_c4028c8 (dir : Dir) (fill : Fill) (a : BV4) (amount : Nat) (h : amount > a.length) :
+    (staticShiftCore dir fill a amount).length = amount :=
+  staticShiftCore_length_of_gt dir fill a amount h
 
 /-! ## frontend: slices and concatenation -/
 
@@ -228,7 +232,7 @@ example : Spec.norm .none .sign (ofNat 65 (2^64 + 5)) [.t, .f, .t] =
     some (ofNat 65 (2^64 + 5), [.t, .f, .t] ++ List.replicate 62 .t, 65) := by decide
 example : (ofNat 65 (2^64 + 5)).allDef = true ∧ BV4.allDef [.t, .f, .t] = true := by decide
 example : (Spec.shift .left .rotate [.t, .f, .f] 1) = [.f, .t, .f] := by decide
-example : (7 : Nat) > ([.t, .f, .f] : BV4).length := by decide
+example : staticShift .right .last [.t, .f, .t] 7 = [.t, .t, .t] ∧ staticShift .left .rotate [.t, .f, .f] 4 = [.f, .t, .f] := ⟨rfl, rfl⟩
 example : slt [.f, .t] [.t, .f] = .ok [.t] ∧ toInt [.f, .t] = -2 ∧ toInt [.t, .f] = 1 := ⟨rfl, by decide, by decide⟩
 
 end Gatery.C03.Props
